@@ -220,6 +220,14 @@ class GrammarRule(Rule):
     """A named grammar rule."""
 
 
+class SkipRule(Rule):
+    """The optimizer's fusion of `WHITESPACE` and `COMMENT` into one rule.
+
+    It is a class of its own so that a grammar rule that happens to be called
+    `SKIP` is never mistaken for it.
+    """
+
+
 class BuiltInRule(Rule):
     """The base class for all built-in rules."""
 
